@@ -57,13 +57,14 @@ let tagname = function
   | TFareyLinear -> "farey_linear_steps" | TWithBasePrecisionZero -> "with_base_precision_zero"
   | TToPrimDigits -> "to_prim_quotient_digits"
 
-let judge_call ?(alt = None) c got =
+let judge_call ?(alt = None) ?(model_ok = true) ?(path = "") c got =
   match outcome_of got with
   | None -> fail (want c)
   | Some o ->
-      let fid = "asis=" ^ (if asis_predicts c o then "same" else "diff") in
+      let fid = "asis=" ^ (if asis_predicts c o && model_ok then "same" else "diff") in
       let cls = "cls=" ^ (match o with ORet -> (match got with "err" :: _ -> "err" | _ -> "ok")
-                                      | OPanic r -> rname r | OOverflow -> "overflow-band" | OHang -> "hang") in
+                                      | OPanic r -> rname r | OOverflow -> "overflow-band" | OHang -> "hang")
+                ^ (if path = "" then "" else " path=" ^ path) in
       if accepts c o then
         let nt = (match c, o with KTotal, ORet -> false | _ -> true) && o <> OOverflow in
         pass ~nt ~extra:(fid ^ " " ^ cls) ()
@@ -75,6 +76,18 @@ let judge_call ?(alt = None) c got =
                 | _ -> fail (want c))
 
 let mem x l = List.mem x l
+
+(* gcd / gcd_ext of two values of three or more words run gcd_large / gcd_ext_large: the as-is Lehmer models (C12's
+   Int/GrlLehmer.v; termination: Cross/LehmerTermination.v, Cross/LehmerExtTermination.v) must return within the fuel *)
+let lehmer_fuel = nat_of_int 6000
+let lehmer_judge op x y c got =
+  let big v = Zar.numbits (Zar.abs v) > 128 in
+  if mem op [ "gcd"; "gcd_rr"; "gcd_ext"; "gcd_ext_rr" ] && big x && big y && Zar.numbits (Zar.abs x) < 40000 && Zar.numbits (Zar.abs y) < 40000 then
+    let ext = mem op [ "gcd_ext"; "gcd_ext_rr" ] in
+    let ok = if ext then (match lehmer_gcd_ext_asis lehmer_fuel (zi 64) (Zar.abs x) (Zar.abs y) with Ok _ -> true | _ -> false)
+             else (match lehmer_gcd_asis lehmer_fuel (zi 64) (Zar.abs x) (Zar.abs y) with Ok _ -> true | _ -> false) in
+    judge_call ~model_ok:ok ~path:(if ext then "lehmer-ext" else "lehmer") c got
+  else judge_call c got
 
 (* ---------------------------------------------------------------- integers *)
 let judge_u op a got =
@@ -95,7 +108,7 @@ let judge_u op a got =
     else if op = "p_div" then KDiv (x 1)
     else KTotal
   in
-  judge_call c got
+  if mem op [ "gcd"; "gcd_rr"; "gcd_ext"; "gcd_ext_rr" ] then lehmer_judge op (x 0) (x 1) c got else judge_call c got
 
 let judge_i op a got =
   let x i = z (List.nth a i) in
@@ -115,7 +128,7 @@ let judge_i op a got =
       let lo, hi = prim_range (List.nth a 0) in KPrimDiv (lo, hi, x 2, x 1)
     else KTotal
   in
-  judge_call c got
+  if mem op [ "gcd"; "gcd_rr"; "gcd_ext"; "gcd_ext_rr" ] then lehmer_judge op (x 0) (x 1) c got else judge_call c got
 
 let judge_b op a got =
   let x i = z (List.nth a i) in
@@ -162,6 +175,17 @@ let judge_f op a got =
     let asis_t = if Zar.sign prec = 0 || auto_prec_zero b nb prec then Zar.zero else Zar.one in
     judge_call ~alt:(Some (TWithBasePrecisionZero, KWithBase (b, nb, asis_t, x ()))) (KWithBase (b, nb, spec_t, x ())) got
   in
+  if op = "repr_new" || op = "from_parts" then begin
+    (* Repr::new: the specification (normal form, or the documented overflow panic when its exponent is not an isize) decides;
+       Cross/ReprNew.v repr_new_asis = the code since 064626d *)
+    let s0 = z (List.nth r 0) and e0 = z (List.nth r 1) in
+    let spec = Zar.to_int (repr_new_spec_code b s0 e0) and asis = Zar.to_int (repr_new_code b s0 e0) in
+    let want = if spec = 0 then "ok" else "panic ExponentOverflow" in
+    if String.concat " " got = want then
+      pass ~nt:true ~extra:(Printf.sprintf "asis=%s cls=%s path=repr-new-%s" (if asis = spec then "same" else "diff")
+                              (if spec = 0 then "ok" else "ExponentOverflow") (if spec = 0 then "ok" else "overflow")) ()
+    else fail want end
+  else
   if mem op [ "add"; "sub"; "mul"; "op_add"; "op_sub"; "op_sub_rr"; "op_mul"; "op_add_assign"; "op_mul_assign"; "sum"; "product" ] then
     judge_call (k FoFinite (x ()) (y ()) Zar.zero) got
   else if mem op [ "sqr"; "cubic"; "v_sqr"; "v_cubic"; "trunc"; "fract"; "ceil"; "floor"; "round"; "split_at_point"; "to_int" ] then
@@ -217,7 +241,7 @@ let judge_q relaxed op a got =
 
 (* ---------------------------------------------------------------- parsers *)
 (* text token s<hex of the UTF-8 bytes> -> list of byte values *)
-let bytes_of_tok (t : string) : Zar.t list =
+let bytes_of_tok t : Zar.t list =
   let h = String.sub t 1 (String.length t - 1) in
   List.init (String.length h / 2) (fun i -> Zar.of_int (int_of_string ("0x" ^ String.sub h (2 * i) 2)))
 
@@ -260,7 +284,66 @@ let judge_p op a got =
         { v with extra = Printf.sprintf "nt=1 asis=%s %s path=%s" (if want = gots && wf then "same" else "diff") cls
                            (if want = "ok" then "model-ok" else "model-" ^ String.concat "" (List.tl (split_ws want))) }
 
-let judge op args got =
+(* ---------------------------------------------------------------- deserialisers *)
+let de_kind = function
+  | "ubig" -> Some (0, 10) | "ibig" -> Some (1, 10) | "repr" -> Some (2, 10) | "fbig" -> Some (3, 2) | "dbig" -> Some (3, 10)
+  | "tbig" -> Some (3, 3) | "hbig" -> Some (3, 16) | "rbig" -> Some (4, 10) | "relaxed" -> Some (5, 10) | _ -> None
+
+(* serde_json::from_slice::<T> is predicted by Cross/SerdeText.v serde_json_de (JSON string layer + visit_str of the type),
+   the struct form (postcard) by deserialize T (EvSeq fields); the verdict is the specification's: Ok or Err, never a panic *)
+let judge_d name a got =
+  let v = judge_call KTotal got in
+  if v.v <> "pass" then v
+  else
+    let ty, fmt = match String.index_opt name '.' with
+      | Some i -> (String.sub name 0 i, String.sub name (i + 1) (String.length name - i - 1))
+      | None -> (name, "") in
+    let code = match de_kind ty, fmt with
+      | Some (k, b), "json" -> Some (Zar.to_int (serde_json_code (zi k) (zi b) (bytes_of_tok (List.nth a 0))))
+      | Some (k, b), "struct" -> Some (Zar.to_int (struct_code (zi k) (zi b) (List.map z a)))
+      | _ -> None in
+    let cls = (match got with "err" :: _ -> "cls=de-err" | _ -> "cls=de-ok") in
+    match code with
+    | None -> { v with extra = "nt=1 " ^ cls }
+    | Some c ->
+        let want = if c = 0 then "ok" else if c = 1 then "err Deserialize" else "panic" in
+        { v with extra = Printf.sprintf "nt=1 asis=%s %s path=%s-model-%s" (if want = String.concat " " got then "same" else "diff") cls fmt
+                           (if c = 0 then "ok" else if c = 1 then "err" else "panic") }
+
+(* ---------------------------------------------------------------- cost classes (thorough tier: T.<op>) *)
+let nb v = Zar.of_int (Zar.numbits (Zar.abs v))
+let log2_up_base = function "2" -> 1 | "3" -> 2 | "a" -> 4 | "10" -> 4 | _ -> 6
+(* (kind of Cross/CostClasses.v cost_code, a, b, c) of a measured operation *)
+let cost_of name a =
+  let x i = z (List.nth a i) in
+  let fl () = (zi (log2_up_base (List.nth a 0)), x 2) in
+  match name with
+  | "u.add" | "u.sub" | "i.add" | "i.sub" | "u.cmp" | "i.and" | "i.or" | "u.shr" -> Some (0, Zar.add (nb (x 0)) (nb (x 1)), Zar.zero, Zar.zero)
+  | "u.count_ones" | "u.trailing_zeros" | "i.neg" | "i.not" -> Some (0, nb (x 0), Zar.zero, Zar.zero)
+  | "u.mul" | "i.mul" -> Some (1, nb (x 0), nb (x 1), Zar.zero)
+  | "u.sqr" | "i.sqr" -> Some (1, nb (x 0), nb (x 0), Zar.zero)
+  | "u.div" | "u.rem" | "u.divrem" | "i.div" | "i.rem" | "u.gcd" | "u.gcd_ext" | "i.gcd" | "i.gcd_ext" ->
+      Some (2, Zar.max (nb (x 0)) (nb (x 1)), Zar.min (nb (x 0)) (nb (x 1)), Zar.zero)
+  | "u.sqrt" | "u.cbrt" | "u.sqrt_rem" -> Some (2, nb (x 0), nb (x 0), Zar.zero)
+  | "u.fmt" | "i.fmt" -> Some (3, nb (x 0), Zar.zero, Zar.zero)
+  | "u.in_radix_fmt" | "i.in_radix_fmt" -> Some (3, nb (x 0), Zar.zero, Zar.zero)
+  | "p.ubig" | "p.ibig" -> Some (3, Zar.of_int (4 * (String.length (List.nth a 0) - 1)), Zar.zero, Zar.zero)
+  | "u.shl" | "u.set_bit" | "i.shl" -> Some (4, nb (x 0), x 1, Zar.zero)
+  | "u.ones" -> Some (4, Zar.zero, x 0, Zar.zero)
+  | "u.pow" | "i.pow" -> Some (5, nb (x 0), x 1, Zar.zero)
+  | "f.op_add" | "f.op_sub" | "f.op_mul" | "f.op_div" | "f.v_sqrt" | "f.v_inv" | "f.v_sqr" -> let lb, p = fl () in Some (6, lb, p, Zar.zero)
+  | "f.v_exp" | "f.v_exp_m1" | "f.v_ln" | "f.v_ln_1p" -> let lb, p = fl () in Some (7, lb, p, Zar.zero)
+  | "f.repr_to_int" | "f.try_ibig" | "f.try_rbig" -> let lb, _ = fl () in Some (8, nb (x 3), lb, Zar.max Zar.zero (x 4))
+  | "q.next_up" | "q.next_down" | "q.nearest" -> Some (9, Zar.add (nb (x 0)) (nb (x 1)), x 2, Zar.zero)
+  | _ -> None
+
+(* time limit in microseconds: scheduling slack + units / divisor of the class (loose constants, support only) *)
+let time_slack_us = Zar.of_int 400_000
+let class_divisor k = Zar.of_int (match k with 0 | 4 -> 40 | 7 -> 4_000 | 9 -> 20 | _ -> 400_000)
+let class_name k = match k with 0 -> "linear" | 1 -> "mul" | 2 -> "div" | 3 -> "radix" | 4 -> "shl" | 5 -> "pow" | 6 -> "float-arith"
+                              | 7 -> "float-series" | 8 -> "to-int" | _ -> "farey"
+
+let rec judge op args got =
   let fam, name = match String.index_opt op '.' with
     | Some i -> (String.sub op 0 i, String.sub op (i + 1) (String.length op - i - 1))
     | None -> ("", op) in
@@ -276,7 +359,22 @@ let judge op args got =
     | "f" -> judge_f name args got
     | "q" -> judge_q false name args got
     | "r" -> judge_q true name args got
-    | "p" | "d" -> judge_p name args got
+    | "p" -> judge_p name args got
+    | "d" -> judge_d name args got
+    | "T" ->
+        (* T.<op>: the answer of <op> followed by us=<hex microseconds> *)
+        let us, got' = (match List.rev got with
+          | t :: rest when String.length t > 3 && String.sub t 0 3 = "us=" ->
+              (Some (Zar.of_string_base 16 (String.sub t 3 (String.length t - 3))), List.rev rest)
+          | _ -> (None, got)) in
+        let v = judge name args got' in
+        (match us, cost_of name args with
+         | Some us, Some (k, a0, b0, c0) when v.v = "pass" ->
+             let units = cost_code (zi k) a0 b0 c0 in
+             let limit = Zar.add time_slack_us (Zar.div units (class_divisor k)) in
+             if Zar.leq us limit then { v with extra = v.extra ^ " path=time-within-" ^ class_name k }
+             else fail (Printf.sprintf "time<=%sus(class=%s,units=%s,measured=%sus)" (Zar.to_string limit) (class_name k) (Zar.to_string units) (Zar.to_string us))
+         | _ -> v)
     | _ -> fail "unknown-family"
 
 let () = serve judge
